@@ -319,7 +319,7 @@ class TupleArg(Arg):
 class Contract:
     def __init__(self, target, args, requires=(), ensures=(), raises=(), props=(), kind="top",
                  modifies=(), call=None, notes="", native_only=False, setup=None, max_paths=None,
-                 samples=200, kf=None, result_filter=None, split=(), shards=1, returns_expr=None, gen=None, requires_symbolic=(), tier="quick", symbolic_only=False, cases=None):
+                 samples=200, kf=None, result_filter=None, split=(), shards=1, returns_expr=None, gen=None, requires_symbolic=(), tier="quick", symbolic_only=False, cases=None, aux=()):
         """target: 'module:Qual.name'
         args: [Arg]  (positional parameters of the function, in order; self first for methods)
         requires: [expr]                      extra preconditions over the parameter names
@@ -337,6 +337,9 @@ class Contract:
         self.split = list(split); self.shards = shards; self.returns_expr = returns_expr; self.gen = gen
         self.cases = cases          # callable(tier) -> list of argument lists: exhaustive enumeration of a stated small scope (engine R)
         self.symbolic_only = symbolic_only   # abstract harness: no native form, no native sampling
+        self.aux = list(aux)      # ids of ensures clauses that are *facts for a composition*, not claims: a failing one is recorded
+        #                           (report.extra['aux']) and decided by the property's composition rule, never reported by itself
+        self.frames_only = False  # derived contract: only the frame condition is generated (C17)
         self.tier = tier          # 'thorough': generated and discharged only in the thorough tier
         self.requires_symbolic = list(requires_symbolic)   # narrows the *proved* domain only (stated in notes); native evaluation ignores it
 
@@ -383,10 +386,52 @@ def native_eval(expr, env):
     return eval(expr, {"__builtins__": __builtins__}, dict(env))
 
 
-def native_check(contract, fn, concrete_args):
+def frame_snapshot(v, depth=0, seen=None):
+    """observable state of an argument (frame conditions, natively): element trees by their serialization, heap
+    objects of the library by their instance dictionaries, containers by their items; None for immutable scalars.
+    The position of a stream is not part of it (reading consumes; the bytes are what must not change)."""
+    import io
+    import xml.etree.ElementTree as _ET
+    seen = seen if seen is not None else set()
+    if v is None or isinstance(v, (int, float, str, bytes, bool, type, frozenset)) or depth > 6:
+        return None
+    if id(v) in seen:
+        return ("cycle",)
+    seen = seen | {id(v)}
+    if isinstance(v, _ET.Element):
+        return ("element", _ET.tostring(v))
+    if isinstance(v, io.BytesIO):
+        return ("bytes", v.getvalue())
+    if isinstance(v, (list, tuple)):
+        own = None
+        if type(v) not in (list, tuple) and hasattr(v, "__dict__"):
+            own = sorted((k, _snap_leaf(x, depth + 1, seen)) for k, x in vars(v).items())
+        return ("seq", type(v).__name__, [_snap_leaf(x, depth + 1, seen) for x in v], own)
+    if isinstance(v, set):
+        return ("set", sorted(repr(_snap_leaf(x, depth + 1, seen)) for x in v))
+    if isinstance(v, dict):
+        return ("map", sorted((repr(k), _snap_leaf(x, depth + 1, seen)) for k, x in v.items()))
+    mod = getattr(type(v), "__module__", "") or ""
+    if mod.startswith("ofxtools") and hasattr(v, "__dict__"):
+        return ("obj", type(v).__name__, sorted((k, _snap_leaf(x, depth + 1, seen)) for k, x in vars(v).items()))
+    return None
+
+
+def _snap_leaf(x, depth, seen):
+    s = frame_snapshot(x, depth, seen)
+    if s is None:
+        try:
+            return ("val", type(x).__name__, repr(x) if not callable(x) else getattr(x, "__qualname__", "callable"))
+        except Exception:
+            return ("val", type(x).__name__)
+    return s
+
+
+def native_check(contract, fn, concrete_args, frames_only=False):
     """run the real function natively on concrete args and evaluate the contract.
     -> (verdict, detail) verdict in ok | violated | pre-false | kf"""
     env = clause_env(contract, concrete_args)
+    frames_only = frames_only or getattr(contract, "frames_only", False)
     try:
         for r in contract.requires:
             if not native_eval(r, env):
@@ -397,6 +442,17 @@ def native_check(contract, fn, concrete_args):
     except Exception as e:
         return "pre-false", f"requires raised {e!r}"
     import copy, warnings
+    before = [None if a.name in contract.modifies else frame_snapshot(v) for a, v in zip(contract.args, concrete_args)]
+    # arguments with mutable state: their source form is taken BEFORE the call, so that a replay starts from the same state
+    native_check.last_literal = arg_literal(list(concrete_args)) if any(b is not None for b in before) else None
+
+    def frame_broken():
+        for a, v, b in zip(contract.args, concrete_args, before):
+            if b is not None and a.name not in contract.modifies:
+                now = frame_snapshot(v)
+                if now != b:
+                    return f"frame: argument '{a.name}' was modified by the call (not in modifies): before={b!r:.300} after={now!r:.300}"
+        return None
     try:
         with warnings.catch_warnings(record=True) as w:
             warnings.simplefilter("always")
@@ -407,6 +463,11 @@ def native_check(contract, fn, concrete_args):
         env["warnings_"] = [x.category for x in w]
         env["ghost"] = {"warnings": [(x.category, str(x.message)) for x in w]}
     except Exception as e:
+        fb = frame_broken()
+        if fb:
+            return "violated", fb + f" (the call raised {type(e).__name__})"
+        if frames_only:
+            return "ok", f"raised {type(e).__name__}"
         env["exc"] = e
         allowed = False
         for cls, cond, mode in contract.raises:
@@ -420,6 +481,11 @@ def native_check(contract, fn, concrete_args):
             return "violated", f"raised {type(e).__name__}: {e} outside the allowed conditions"
         return "ok", f"raised {type(e).__name__}"
     env["result"] = result
+    fb = frame_broken()
+    if fb:
+        return "violated", fb
+    if frames_only:
+        return "ok", "returned"
     for cls, cond, mode in contract.raises:
         if mode == "must":
             try:
@@ -428,6 +494,8 @@ def native_check(contract, fn, concrete_args):
             except Exception as e2:
                 return "violated", f"raises-condition {cond!r} raised {e2!r}"
     for eid, expr in contract.ensures:
+        if eid in getattr(contract, "aux", ()):
+            continue
         try:
             if not native_eval(expr, env):
                 return "violated", f"ensures[{eid}] false: {expr}; result={result!r}"
@@ -436,7 +504,43 @@ def native_check(contract, fn, concrete_args):
     return "ok", "returned"
 
 
+def arg_literal(v):
+    """source text that rebuilds a concrete argument in the replay snippet: literals as they are, element trees
+    from their serialization, anything else (converter instances, datetimes, decimals, models) from its pickle"""
+    import ast, pickle
+    import xml.etree.ElementTree as _ET
+    if isinstance(v, _ET.Element):
+        return f"ET.fromstring({_ET.tostring(v)!r})"
+    try:
+        ast.literal_eval(repr(v))
+        return repr(v)
+    except Exception:
+        pass
+    if type(v) is list:
+        return "[" + ", ".join(arg_literal(x) for x in v) + "]"
+    if type(v) is tuple:
+        return "(" + "".join(arg_literal(x) + ", " for x in v) + ")"
+    if type(v) is dict:
+        return "{" + ", ".join(f"{arg_literal(k)}: {arg_literal(x)}" for k, x in v.items()) + "}"
+    try:
+        return f"pickle.loads({pickle.dumps(v, protocol=4)!r})"
+    except Exception:
+        return repr(v)
+
+
+class ArgList(list):
+    """failing arguments together with their source form as it was before the call"""
+    literal = None
+
+
+def keep_args(args):
+    r = ArgList(args)
+    r.literal = getattr(native_check, "last_literal", None)
+    return r
+
+
 def replay_snippet(contract_module, contract_index, concrete_args):
+    literal = getattr(concrete_args, "literal", None) or arg_literal(list(concrete_args))
     return (
         "import sys, json\n"
         "try:\n    import z3\nexcept ImportError:\n    sys.path.append('/opt/veriftools/pyvenv/lib/python3.11/site-packages')\n"
@@ -444,7 +548,9 @@ def replay_snippet(contract_module, contract_index, concrete_args):
         "from pyvc.contract import native_check\n"
         f"c = cm.CONTRACTS[{contract_index}]\n"
         "m, fn = c.resolve()\n"
-        f"args = {concrete_args!r}\n"
+        "import pickle\nimport xml.etree.ElementTree as ET\n"
+        + "# args: " + repr(concrete_args).replace("\n", " ") + "\n"
+        f"args = {literal}\n"
         "v, d = native_check(c, fn, args)\n"
         "print('REPLAY', v, d)\n"
         "sys.exit(17 if v == 'violated' else 0)\n"
@@ -581,6 +687,16 @@ class Verifier:
                                 self._confirmed = True
                         except Exception:
                             pass
+                    auxid = oname.split(":", 1)[1].split(".")[0] if oname.startswith("ensures:") else None
+                    if auxid in contract.aux:
+                        a = rep.extra.setdefault("aux", {}).setdefault(auxid, {"ok": 0, "failed": 0, "where": []})
+                        if status.startswith("discharged"):
+                            a["ok"] += 1
+                        else:
+                            a["failed"] += 1
+                            if len(a["where"]) < 5:
+                                a["where"].append(full)
+                        continue
                     if status.startswith("discharged"):
                         rep.ok(full, {"discharged": "z3", "discharged-tab": "z3+tabulation", "discharged-cvc5": "cvc5"}[status], dt, contract.kind, fname)
                     else:
@@ -592,7 +708,7 @@ class Verifier:
                         if s2 == "failed":
                             canary_refuted = True
         it.current_target = None
-        if contract.ensures:
+        if contract.ensures and not contract.frames_only:
             rep.canaries[1] += 1
             if canary_refuted:
                 rep.canaries[0] += 1
@@ -731,6 +847,16 @@ class Verifier:
                     out.append((nm, sp.pc, False, kind))
                 else:
                     out.append((nm, sp.pc, sp.value, "unsupported"))
+        # frame: every write of the path (normal return or exception) goes to an object allocated by the call
+        # or named in modifies
+        nframe = 0
+        for obj, field in p.st.writes:
+            if not obj.fresh and (obj.label, field) not in contract.modifies and obj.label not in contract.modifies:
+                out.append((f"modifies:{obj.label}.{field}", p.pc, False, "frame")); nframe += 1
+        if getattr(contract, "frames_only", False):
+            if not nframe:
+                out.append(("frame:no-write-outside-modifies", p.pc, True, "frame"))
+            return out
         if p.kind == "ret":
             env["result"] = p.value
             for cls, cond, mode in contract.raises:
@@ -738,10 +864,6 @@ class Verifier:
                     eval_clause(f"must-raise:{cls.__name__}", cond, "raises", negate=True)
             for eid, expr in contract.ensures:
                 eval_clause(f"ensures:{eid}", expr, "ensures")
-            # frame
-            for obj, field in p.st.writes:
-                if not obj.fresh and (obj.label, field) not in contract.modifies and obj.label not in contract.modifies:
-                    out.append((f"modifies:{obj.label}.{field}", p.pc, False, "frame"))
         else:
             exc = p.value
             env["exc"] = exc
@@ -769,7 +891,7 @@ class Verifier:
                     continue
                 evals += 1
                 if v == "violated":
-                    bad.append((args, d))
+                    bad.append((keep_args(args), d))
             rep.add_bounded(contract.target, "R(native contract evaluation, exhaustive over the stated scope)", contract.notes or "enumerated scope", evals, len(bad))
             rep.crosscheck["samples"] += evals
             self._native_bad = getattr(self, "_native_bad", {})
@@ -793,7 +915,7 @@ class Verifier:
             if v == "kf":
                 kf_hits += 1
             if v == "violated":
-                bad.append((args, d))
+                bad.append((keep_args(args), d))
         rep.add_bounded(contract.target, "R(native contract evaluation)", f"{n} sampled inputs ({label}), seed {self.seed}", evals, len(bad),
                         note=(f"{kf_hits} inputs fell into known-finding carve-outs" if kf_hits else ""))
         rep.crosscheck["samples"] += evals
@@ -816,8 +938,10 @@ class Verifier:
                 detail += f"; concretize error {e!r}"
         verdict = None
         if concrete is not None:
+            shown = repr(concrete)
             verdict, d = native_check(contract, fn, concrete)
-            detail += f"; model args={concrete!r}; native: {verdict} ({d})"
+            concrete = keep_args(concrete)
+            detail += f"; model args={shown}; native: {verdict} ({d})"
         if verdict == "violated":
             rep.fail(full, "z3", detail, dt, contract.kind, fname, cex=concrete)
             payload = {"contract": fname, "clause": oname, "args": repr(concrete), "native": detail,
